@@ -555,7 +555,8 @@ func (e *Env) close() {
 			e.tr.log("-", "api.hang", "Serve")
 		}
 	}
-	e.tr.log("-", "goroutines", strconv.Itoa(corebgpGoroutines()))
+	ng, where := corebgpGoroutinesInfo()
+	e.tr.log("-", "goroutines", strconv.Itoa(ng), strings.ReplaceAll(where, " ", "_"))
 	e.settle()
 }
 
@@ -603,23 +604,36 @@ func (p *Peer) delete() {
 
 // corebgpGoroutines counts goroutines with a corebgp frame that is not the harness itself.
 func corebgpGoroutines() int {
+	n, _ := corebgpGoroutinesInfo()
+	return n
+}
+
+// corebgpGoroutinesInfo also says where the leftover goroutines are (innermost corebgp function of each)
+func corebgpGoroutinesInfo() (int, string) {
 	// give exiting goroutines a moment: they are past their last synchronisation already
 	var n int
+	var where []string
 	for try := 0; try < 20; try++ {
 		buf := make([]byte, 1<<20)
 		buf = buf[:runtime.Stack(buf, true)]
 		n = 0
+		where = where[:0]
 		for _, g := range bytes.Split(buf, []byte("\n\n")) {
-			if bytes.Contains(g, []byte("github.com/jwhited/corebgp.")) {
+			if i := bytes.Index(g, []byte("github.com/jwhited/corebgp.")); i >= 0 {
 				n++
+				rest := g[i+len("github.com/jwhited/corebgp."):]
+				if j := bytes.IndexAny(rest, "(\n"); j >= 0 {
+					rest = rest[:j]
+				}
+				where = append(where, string(rest))
 			}
 		}
 		if n == 0 {
-			return 0
+			return 0, ""
 		}
 		time.Sleep(5 * time.Millisecond)
 	}
-	return n
+	return n, strings.Join(where, ",")
 }
 
 // waitLog waits for a logger / other event of the peer.
